@@ -4,6 +4,7 @@ import (
 	"fmt"
 	"os"
 	"path/filepath"
+	"regexp"
 	"sort"
 	"testing"
 
@@ -23,6 +24,24 @@ type bucketState struct {
 	taken map[string]struct{}
 	next  uint32 // id sequence
 	dicts []*sortedMap
+	// degenerate keys (the empty key, a single-byte key, 0xFF 0xFF) that join the injectAt-th
+	// dictionary flushed for this bucket, so that they end up in the first / a middle / the last
+	// file (= trie group) of the bucket and go through the merger with it
+	inject   [][]byte
+	injectAt int
+	injected bool
+}
+
+func (b *bucketState) injectsEmptyNow() bool {
+	if b.injected || len(b.dicts) != b.injectAt {
+		return false
+	}
+	for _, k := range b.inject {
+		if len(k) == 0 {
+			return true
+		}
+	}
+	return false
 }
 
 func (b *bucketState) union() *sortedMap { return union(b.dicts...) }
@@ -42,6 +61,19 @@ func flushOnce(t fataler, family kv.Family, blockSize int, buckets []*bucketStat
 			continue
 		}
 		keys := genKeys(b.s, b.st, sizes[i], b.taken)
+		if !b.injected && len(b.dicts) == b.injectAt {
+			for _, k := range b.inject {
+				if _, dup := b.taken[string(k)]; !dup {
+					b.taken[string(k)] = struct{}{}
+					// any position: the flusher receives the pairs in map order
+					at := b.s.intn(len(keys)+1, "injectPos")
+					keys = append(keys, nil)
+					copy(keys[at+1:], keys[at:])
+					keys[at] = append([]byte{}, k...)
+				}
+			}
+			b.injected = true
+		}
 		vals := make([]uint32, len(keys))
 		for j := range vals {
 			vals[j] = b.next
@@ -90,6 +122,17 @@ func readAndCheck(t fataler, stage string, family kv.Family, buckets []*bucketSt
 		}
 		u := b.union()
 		q := genBucketQueries(t, b.s, b.st, u) // the union changed: fresh queries
+		if b.injected {
+			for _, k := range b.inject {
+				if len(k) > 0 {
+					q.suggest = append(q.suggest, suggestProbe{k, "degenerate-key"})
+				}
+				if v, ok := u.get(k); ok {
+					q.collects = append(q.collects, []uint32{v})
+				}
+			}
+			q.regexps = append(q.regexps, regexp.MustCompile("^$"), regexp.MustCompile(""), regexp.MustCompile("^.?$"))
+		}
 		queries[b.id] = q
 		checkBucket(t, fmt.Sprintf("%s: bucket %d (%d dictionaries flushed)", stage, b.id, len(b.dicts)), bucket, u, q)
 		bucket.Release()
@@ -172,18 +215,40 @@ func TestFlushReadMerge(t *testing.T) {
 		sort.Slice(ids, func(i, j int) bool { return ids[i] < ids[j] })
 		var buckets []*bucketState
 		var classes []string
+		degKinds := map[*bucketState]string{}
 		maxN := 0
 		for _, id := range ids {
 			sp := drawKeySetSpec(t, 400)
-			buckets = append(buckets, &bucketState{id: id, st: sp.style, s: sp.s, taken: map[string]struct{}{},
-				next: rapid.SampledFrom([]uint32{0, 1, 5000}).Draw(t, "idBase")})
+			b := &bucketState{id: id, st: sp.style, s: sp.s, taken: map[string]struct{}{},
+				next: rapid.SampledFrom([]uint32{0, 1, 5000}).Draw(t, "idBase")}
+			buckets = append(buckets, b)
 			classes = append(classes, "style="+sp.style.name)
+			if rapid.IntRange(0, 1).Draw(t, "degenerate") == 0 {
+				kind := rapid.SampledFrom([]string{"empty", "empty", "empty", "byte-00", "byte-ff", "byte-style", "ff-ff", "empty+byte-ff"}).Draw(t, "degenerateKind")
+				switch kind {
+				case "empty":
+					b.inject = [][]byte{{}}
+				case "byte-00":
+					b.inject = [][]byte{{0x00}}
+				case "byte-ff":
+					b.inject = [][]byte{{0xff}}
+				case "byte-style":
+					b.inject = [][]byte{{sp.style.byteAt(sp.s, "single")}}
+				case "ff-ff":
+					b.inject = [][]byte{{0xff, 0xff}}
+				default:
+					b.inject = [][]byte{{}, {0xff}}
+				}
+				b.injectAt = rapid.IntRange(0, 2).Draw(t, "degenerateAt")
+				degKinds[b] = kind
+			}
 			if sp.n > maxN {
 				maxN = sp.n
 			}
 		}
 
 		queries := map[uint32]bucketQueries{}
+		excludedBS1 := false
 		rounds := rapid.IntRange(1, 3).Draw(t, "rounds")
 		totalFlushes, compactions, maxDicts, maxTries := 0, 0, 0, 0
 		for r := 0; r < rounds; r++ {
@@ -200,7 +265,15 @@ func TestFlushReadMerge(t *testing.T) {
 				if !any {
 					sizes[0] = rapid.IntRange(1, maxN).Draw(t, "dictN")
 				}
-				flushOnce(t, family, drawBlockSize(t, maxN), buckets, sizes)
+				bs := drawBlockSize(t, maxN)
+				for i, b := range buckets {
+					// known finding: the empty key split off with block size 1 cannot be built
+					if bs == 1 && sizes[i] > 0 && b.injectsEmptyNow() && excludedBlock1() {
+						bs = 2
+						excludedBS1 = true
+					}
+				}
+				flushOnce(t, family, bs, buckets, sizes)
 				totalFlushes++
 			}
 			stage := fmt.Sprintf("round %d after %d flushes", r, totalFlushes)
@@ -235,6 +308,29 @@ func TestFlushReadMerge(t *testing.T) {
 			}
 		}
 		classes = append(classes, fmt.Sprintf("buckets=%d", nb), fmt.Sprintf("compactions=%d", compactions))
+		if excludedBS1 {
+			classes = append(classes, "excluded_known:empty-key-with-block-size-1")
+		}
+		for _, b := range buckets {
+			kind, ok := degKinds[b]
+			if !ok {
+				continue
+			}
+			if !b.injected {
+				classes = append(classes, "degenerate-key-not-reached")
+				continue
+			}
+			where := "middle"
+			switch {
+			case len(b.dicts) == 1:
+				where = "only"
+			case b.injectAt == 0:
+				where = "first"
+			case b.injectAt == len(b.dicts)-1:
+				where = "last"
+			}
+			classes = append(classes, "degenerate-key="+kind, fmt.Sprintf("degenerate-key-in-%s-of-%s-flushed-dictionaries", where, map[bool]string{true: "1", false: ">=2"}[len(b.dicts) == 1]))
+		}
 		if maxDicts >= 2 {
 			classes = append(classes, "bucket-in>=2-files")
 		}
